@@ -731,7 +731,7 @@ def ctx_stmt14(node):
 
 @obligation('C14-i', 'T11 T7', 'the observed data move with a replacement exactly when the '
             'replacement had some; the reference that was replaced stays usable; a copy is '
-            'returned', floor=7,
+            'returned', floor=6,
             necessary='a negated membership test pops a missing key or never moves the data; a '
                       'replacement whose reference keeps its old name points at a node that no '
                       'longer exists')
@@ -822,16 +822,6 @@ def c14_i(ctx):
               'other_node.name = self.name; other_node.model = self.model',
               'after become() the replacement\'s reference still names the removed node', fn=be,
               node=(st_n or st_m or [be.node])[0])
-    cl = [s for (s, t, k) in ctx.stores(be, 'self.__class__') if isinstance(s, ast.Assign)]
-    ok = len(cl) == 1 and bool(un) and ctx.must_precede(be, un, cl[0]) and \
-        match_any_(exb.term(cl[0].value), ("self.state.get('_class', NodeReference)",
-                                           "self.state['_class']")) and \
-        any((not pol) and match(t, pattern('isinstance(self, _c)')) is not None
-            for (t, pol, _) in ctx.guards(be, cl[0]))
-    ctx.check(ok, be, 'the kept reference takes the class of the new state',
-              "if not isinstance(self, _class): self.__class__ = state['_class']",
-              'the kept reference does not take over the node class stored in the new state',
-              fn=be, node=cl[0] if cl else be.node)
 
 
 def match_any_(t, pats):
